@@ -10,6 +10,7 @@ import (
 	"perun.network/go-perun/channel"
 	"perun.network/go-perun/client"
 
+	"verif/sim/gen"
 	"verif/sim/kernel"
 	"verif/sim/world"
 )
@@ -335,6 +336,15 @@ func checkC06(p *pair, sc *kernel.Scenario) {
 			return
 		}
 		sa, sb := a.State(), b.State()
+		if mode != 3 {
+			// what a controller holds in memory is the last state it enabled
+			for side, st := range []*channel.State{sa, sb} {
+				if l := p.n[side].Rec.EnabledOf(id); len(l) > 0 && !bytes.Equal(gen.EncodeState(st), l[len(l)-1].Enc) {
+					s.Fail("C06.current-state-changed-without-update", "%s's current state of %s (v%d) is not the state it enabled last", p.n[side].Name, s.ChanName(id), st.Version)
+					return
+				}
+			}
+		}
 		if sa.Version != sb.Version || sa.Equal(sb) != nil {
 			s.Fail("C06.diverged", "at quiescence %s is at v%d on A and v%d on B", s.ChanName(id), sa.Version, sb.Version)
 			return
